@@ -27,8 +27,8 @@ ASSUMPTIONS = [
     'chemistry\'s active/inactive indexing), validity of the mixture itself is C10',
     'the product rule is asserted for the transmission model (third return value = per-layer transmittance)',
 ]
-_Q = {'compose': 45, 'order': 16, 'abundance': 16, 'emission': 12, 'live': 20, 'cia_pairs': 20}
-_T = {'compose': 700, 'order': 250, 'abundance': 250, 'emission': 200, 'live': 300, 'cia_pairs': 300}
+_Q = {'cia_sweep': 1, 'compose': 45, 'order': 16, 'abundance': 16, 'emission': 12, 'live': 20, 'cia_pairs': 20}
+_T = {'cia_sweep': 3, 'compose': 700, 'order': 250, 'abundance': 250, 'emission': 200, 'live': 300, 'cia_pairs': 300}
 BUDGET = {
     'quick': [dict(name='boundscheck', env={'NUMBA_BOUNDSCHECK': '1'}, shards=4, cases=_Q)],
     'thorough': [dict(name='boundscheck', env={'NUMBA_BOUNDSCHECK': '1'}, shards=16, cases=_T)],
@@ -39,7 +39,7 @@ REQUIRED = dict(monitors=['sigma-is-sum-of-components', 'component-is-xsec-times
                           'contribution-list-restored', 'store-contributions-equal-model-contrib'],
                 classes=['live:fault-before-evaluation', 'cia:he-zero', 'cia:trace-zero', 'cia:trace-zero-in-some-layers', 'contrib:CIA', 'contrib:Rayleigh', 'contrib:SimpleClouds', 'contrib:FlatMie', 'contrib:LeeMie',
                          'contrib:HydrogenIon', 'model:emission', 'early-exit-observed', 'species>=2', 'restricted-grid',
-                         'live:starts-at-zero', 'live:interpolation-mode-switched-between-evaluations', 'live:write-a-few-parts-per-billion-away', 'live:write-trace-abundance-below-1e-8', 'live:write-from-zero', 'live:write-to-zero', 'live:write-rescale', 'chemistry:makefree+file', 'live:background-without-scattering-data',
+                         'live:starts-at-zero', 'history:one-model-a-thousand-temperatures-with-CIA', 'live:interpolation-mode-switched-between-evaluations', 'live:write-a-few-parts-per-billion-away', 'live:write-trace-abundance-below-1e-8', 'live:write-from-zero', 'live:write-to-zero', 'live:write-rescale', 'chemistry:makefree+file', 'live:background-without-scattering-data',
                          'live:contribution-yields-nothing-after-having-yielded', 'rayleigh:species-zero-in-some-layers-only'])
 _rec = {'yields': {}, 'sigma': {}}
 CUT = base.CUT
@@ -617,6 +617,55 @@ def wl_cia_pairs(ctx, rng):
     ctx.sig('cia', tuple(pairs), how, spec['nlayers'], round(spec['planet_mass'], 6))
 
 
+def wl_cia_sweep(ctx, rng):
+    """A long history on ONE model with collision-induced absorption (a retrieval of the temperature): over a thousand
+    evaluations at new temperatures, earlier temperatures coming back in between and at the end.  After every evaluation the
+    yielded pair components are judged against cross-section x x1 x x2 and the summed opacity against their sum."""
+    for _ in range(50):
+        spec = make_case(rng, hion=False, n_active=1)
+        spec['fill_gases'] = ['H2', 'He']
+        spec['fill_ratio'] = [float(10 ** rng.uniform(-2, 0))]
+        spec['temperature'] = {'kind': 'isothermal', 'T': float(rng.uniform(600, 1500))}
+        mol_ = sorted(spec['tables'])[0]
+        spec['tables'] = {mol_: spec['tables'][mol_]}
+        spec['gases'] = [{'kind': 'constant', 'mol': mol_, 'mix': float(10 ** rng.uniform(-7, -3))}]
+        spec.pop('makefree', None)
+        spec['contributions'] = ['Absorption', {'name': 'CIA', 'cia_pairs': ['H2-H2', 'H2-He']}]
+        if spec['gases'] and world.is_bound(dict(spec, temperature={'kind': 'isothermal', 'T': 2600.0})):
+            break
+    else:
+        ctx.event('domain-skip:no-bound-isothermal-world')
+        return
+    observe_case(ctx, spec, 'transmission')
+    model, contribs, ops, cias = realise(spec)
+    snap = base.run_model(ctx, model)
+    if snap is None:
+        return
+    judge_components(ctx, model, contribs, ops, cias, spec, snap['wn'])
+    base.oracle(ctx, snap, spec)
+    n = int(rng.integers(1080, 1300)) if ctx.tier == 'quick' else int(rng.integers(2500, 6000))
+    temps = [float(rng.uniform(300, 2600)) for _ in range(n)]
+    seq = []
+    for j, t in enumerate(temps):
+        seq.append(t)
+        if j % 100 == 99:
+            seq.append(temps[int(rng.integers(0, j // 2))])
+    seq += [temps[int(k)] for k in rng.integers(0, 40, 8)]
+    judged = 0
+    for j, t in enumerate(seq):
+        model['T'] = t
+        live = base.run_model(ctx, model, build=False)
+        if live is None:
+            continue
+        judge_components(ctx, model, contribs, ops, cias, spec, live['wn'])
+        if j % 100 == 0 or j >= len(seq) - 8:
+            base.oracle(ctx, live, spec)
+        judged += 1
+    if judged > 1000:
+        ctx.observe('history:one-model-a-thousand-temperatures-with-CIA')
+    ctx.sig('cia-sweep', spec['nlayers'], len(seq), round(spec['planet_mass'], 6))
+
+
 def wl_emission(ctx, rng):
     """(a)(b)(e)(f) on the emission / direct-image models."""
     kind = ['emission', 'directimage'][rng.integers(0, 2)]
@@ -644,7 +693,7 @@ def wl_emission(ctx, rng):
             round(spec['planet_mass'], 6))
 
 
-WORKLOADS = {'compose': wl_compose, 'order': wl_order, 'abundance': wl_abundance, 'emission': wl_emission, 'live': wl_live, 'cia_pairs': wl_cia_pairs}
+WORKLOADS = {'cia_sweep': wl_cia_sweep, 'compose': wl_compose, 'order': wl_order, 'abundance': wl_abundance, 'emission': wl_emission, 'live': wl_live, 'cia_pairs': wl_cia_pairs}
 
 LEVEL_TEXT = ('Exploration by runtime monitoring: a generator tap copies every component a contribution yields at the moment '
               'it is yielded, taps on prepare/path_integral/contribute record the summed sigma, the per-layer '
